@@ -18,6 +18,7 @@ import keyword
 import os
 import random
 import re
+import sys
 import time
 import tokenize
 from typing import Any
@@ -230,7 +231,7 @@ def stream_nodes(ctx: Ctx) -> Stream:
 	mods += [pr.add_real(mp) for mp in real_modules(ctx, rng, ctx.scale(4, 40))]
 	per_module = ctx.scale(60, 100)
 	cases = []
-	for mp in mods:
+	for mp in diskproj.bounded(mods, *diskproj.budgets(ctx)):
 		cold_sexp: tuple[str, int] | None = None
 		for restored in (False, True):
 			try:
@@ -312,7 +313,7 @@ def stream_quote(ctx: Ctx) -> Stream:
 	d = ctx.tmpdir()
 	cases = []
 	pieces = ['x = 1', '\tif a:', '\t\treturn (a +', '    b)', '', 'あ = "い"', 'a\tb\tc', '  ', '# c']
-	for i in range(ctx.scale(150, 2000)):
+	for i in diskproj.bounded(range(ctx.scale(150, 2000)), *diskproj.budgets(ctx)):
 		n = rng.randint(0, 5)
 		content = '\n'.join(rng.choice(pieces) for _ in range(n))
 		if n and rng.random() < 0.8:
@@ -375,7 +376,7 @@ def stream_hull(ctx: Ctx) -> Stream:
 	broken: list[dict[str, Any]] = []
 	only_filtered = [0]
 	empty_metas = [0]
-	for label, src in sources:
+	for label, src in diskproj.bounded(sources, *diskproj.budgets(ctx), label=lambda x: x[0]):
 		app.source = src
 		# the parser completes a last line without line feed (parser.py `__load_source`); lex and measure the same text
 		text = src if src.endswith('\n') or src == '' else src + '\n'
@@ -488,7 +489,7 @@ def stream_collector(ctx: Ctx) -> Stream:
 	rng = ctx.sub_rng('span-collector')
 	cases = []
 	tk = Tokenizer()
-	for i in range(ctx.scale(120, 1500)):
+	for i in diskproj.bounded(range(ctx.scale(120, 1500)), *diskproj.budgets(ctx)):
 		if i % 3 == 0:
 			src = rng.choice(['a = b +\n', 'x := a (b | c)\n\ty := "s"\n', 'def f(a):\n\treturn a @ 1\n', "s = '''a\nb''' + 1\n", '\tif a:\n\t\tb ?\n', ''])
 			try:
@@ -604,28 +605,12 @@ _LEX_CACHE: dict[str, Any] = {}
 
 def grammar_first_last(parser: Any) -> tuple[dict[str, set[str]], dict[str, set[str]]]:
 	"""For every tree name of the grammar (rule name, alias or template name): the terminal types a derivation of it can
-	begin with and end with — FIRST/LAST sets computed by lark's own grammar analysis from the loaded rules. Independent of
-	the positions under test: a tree's span must begin at a token of FIRST(name) and end at a token of LAST(name)."""
-	if _GRAMMAR_SETS:
-		return _GRAMMAR_SETS['first'], _GRAMMAR_SETS['last']
-	from lark.grammar import Rule
-	from lark.parsers.grammar_analysis import calculate_sets
-	rules = parser.dirty_get_origin().rules
-
-	def sets(rs: list[Any]) -> dict[str, set[str]]:
-		first, _, nullable = calculate_sets(rs)
-		out: dict[str, set[str]] = {}
-		for r in rs:
-			name = str(r.alias or (r.options.template_source if r.options and r.options.template_source else None) or r.origin.name)
-			acc = out.setdefault(name, set())
-			for sym in r.expansion:
-				acc.update(t.name for t in first[sym])
-				if sym not in nullable:
-					break
-		return out
-
-	_GRAMMAR_SETS['first'] = sets(list(rules))
-	_GRAMMAR_SETS['last'] = sets([Rule(r.origin, list(reversed(r.expansion)), r.order, r.alias, r.options) for r in rules])
+	begin with and end with. These are the GENERATED tables (translate/gen_grammar_first.py: lark's loaded rules and its
+	FIRST/NULLABLE analysis) whose closure Props/C16.lean re-checks (`first_tables_ok`, `last_tables_ok`) and from which
+	`span_begins_at_first_token` / `span_ends_at_last_token` follow. Independent of the positions under test."""
+	if not _GRAMMAR_SETS:
+		from translate import gen_grammar_first
+		_GRAMMAR_SETS['first'], _GRAMMAR_SETS['last'] = gen_grammar_first.first_last_by_name()
 	return _GRAMMAR_SETS['first'], _GRAMMAR_SETS['last']
 
 
@@ -893,7 +878,7 @@ def search_spans(ctx: Ctx) -> tuple[SearchResult, SearchResult]:
 	exercised = 0
 	_FRESH_SEEN.clear()
 	_COLD_QUOTES.clear()
-	for mp in mods:
+	for mp in diskproj.bounded(mods, *diskproj.budgets(ctx), label=lambda m: pr.labels.get(m, m)):
 		sampled: list[str] | None = None
 		cold_spans: dict[str, Any] = {}
 		for restored in (False, True):
@@ -952,7 +937,7 @@ def search_spans(ctx: Ctx) -> tuple[SearchResult, SearchResult]:
 	resq.distinct = resq.cases
 	if not exercised and not res.findings and not resq.findings:
 		raise common.InfraError('no module was restored from the on-disk cache: the restored half of the search did not run')
-	res.note = 'every tree span begins at a token of FIRST(rule) and ends at a token of LAST(rule) (sets from lark\'s grammar analysis, token types from the parser\'s lexer); the cache-restored tree is compared with the cold parse node by node (every entry: span; sampled nodes: printed quotation); history: every 4th generated module is rewritten after its tree was cached (mtime changed only in its fractional second) and re-parsed by a fresh App on the same cache directory — the spans must delimit the current text; restrictions: positions inside a CPython STRING token are exempt from the boundary/content checks (quoted annotations are lexed by the grammar as QUOTE NAME QUOTE); CPython NAME tokens that are Python keywords or anonymous literals of grammar.lark, and `# type: ignore` comments (ignored by the grammar) need not be terminals; f-strings are folded into one STRING; the end of a multi-line CPython STRING token is recomputed from its start and text (CPython 3.12 miscounts it after non-ASCII text); files with CR are excluded; for a text without final line feed (lines+1, 1) counts as end of input'
+	res.note = 'every tree span begins at a token of FIRST(rule) and ends at a token of LAST(rule) (the generated, Lean-checked tables of translate/gen_grammar_first.py; token types from the parser\'s lexer); the cache-restored tree is compared with the cold parse node by node (every entry: span; sampled nodes: printed quotation); history: every 4th generated module is rewritten after its tree was cached (mtime changed only in its fractional second) and re-parsed by a fresh App on the same cache directory — the spans must delimit the current text; restrictions: positions inside a CPython STRING token are exempt from the boundary/content checks (quoted annotations are lexed by the grammar as QUOTE NAME QUOTE); CPython NAME tokens that are Python keywords or anonymous literals of grammar.lark, and `# type: ignore` comments (ignored by the grammar) need not be terminals; f-strings are folded into one STRING; the end of a multi-line CPython STRING token is recomputed from its start and text (CPython 3.12 miscounts it after non-ASCII text); files with CR are excluded; for a text without final line feed (lines+1, 1) counts as end of input'
 	resq.note = 'an empty column range is shown by one caret at its position (the renderer\'s documented minimum); nodes whose span has no position (0,0,0,0) must not be quoted at all (regression of fix dc3e568); a None position or a raising renderer is a finding (regression of fix 46d0462); CRLF files excluded'
 	return res, resq
 
@@ -968,7 +953,7 @@ def search_collector(ctx: Ctx) -> SearchResult:
 	tk = Tokenizer()
 	synthetic = {TokenTypes.NewLine, TokenTypes.Indent, TokenTypes.Dedent, TokenTypes.EOF, TokenTypes.Empty}
 	seen = set()
-	for i in range(ctx.scale(60, 800)):
+	for i in diskproj.bounded(range(ctx.scale(60, 800)), *diskproj.budgets(ctx)):
 		src, _ = pygen.gen_module(rng, n_statements=rng.randint(1, 3), unit=rng.choice(['\t', '  ']))
 		try:
 			tokens = tk.parse(src)
@@ -1018,6 +1003,12 @@ STATEMENTS = {
 	'shift_generated': "the shift tuple read from the source is the model's minus-one shift",
 	'buildQuotation_generated': '__build_quotation evaluated from the generated tables in the statement order found in the source (exists, guard, shift) equals the model buildQuotation',
 	'lark_options': 'the parser is built with propagate_positions=True and postlex=PythonIndenter() (read from the source)',
+	'first_tables_ok': 'the generated NULLABLE/FIRST tables are closed under every rule of the generated grammar (462 rules read from lark; decide +kernel)',
+	'last_tables_ok': 'the same for the grammar with reversed right-hand sides (LAST)',
+	'span_begins_at_first_token': 'every valid derivation by a rule that builds a tree named n begins with a terminal of the generated FIRST set of n — the search clause span-begin-not-first-token is a consequence of the interface hypothesis',
+	'span_ends_at_last_token': 'and ends with a terminal of the generated LAST set of n (span-end-not-last-token)',
+	'quotation_shape': "ErrorRender.Quotation as read from the source (readlines, the replace chain, the range expressions, fill characters and counts, line-number expression, the four templates) evaluates to the model's quotationBuild for every content and span",
+	'collector_shape': "ErrorCollector as read from the source (range expressions, mark, line number, the two templates, source.split lookup) evaluates to the model's collectorLines",
 	'mark_line': 'the loaded line is the bl-th piece of readlines = the bl-th piece of split("\\n"), without line feed, every tab replaced by exactly one blank (length and columns preserved)',
 	'mark_aligned': 'quoted line and mark line are printed behind prefixes of equal width',
 	'pos_mono': '(line, column) computed from the text by own arithmetic is monotone in the character offset',
@@ -1032,13 +1023,38 @@ STATEMENTS = {
 }
 
 
+def guard_stream(fn: Any, ctx: Ctx) -> Stream:
+	def on_timeout(case: Any) -> Stream:
+		st = Stream(fn.__name__.replace('stream_', 'span-'))
+		st.disagreements.append({'case': case, 'op': '(budget)', 'real': 'the real code did not finish within the per-case budget', 'model': '-'})
+		return st
+	return diskproj.guarded(fn, ctx, on_timeout)
+
+
+def guard_search(fn: Any, ctx: Ctx) -> Any:
+	def on_timeout(case: Any) -> Any:
+		res = SearchResult(f'{fn.__name__}: budget')
+		res.findings.append(Finding(key='real-code-exceeds-budget', what=f'{fn.__name__}: the real code did not finish within the per-case budget on {case}', replay={'case': case}))
+		return (res, SearchResult(f'{fn.__name__}: budget (quotations)')) if fn.__name__ == 'search_spans' else res
+	return diskproj.guarded(fn, ctx, on_timeout)
+
+
 def run(ctx: Ctx) -> int:
 	translate_ok, translate_msg = c15.translate(ctx)
+	with ctx.timed('translate'):
+		try:
+			from translate import gen_grammar_first, gen_quotation_shape
+			ctx.generated_tables.extend(gen_grammar_first.generate())
+			ctx.generated_tables.extend(gen_quotation_shape.generate())
+		except Exception as e:  # noqa: BLE001
+			translate_ok, translate_msg = False, f'{translate_msg} {type(e).__name__}: {e}'.strip()
+			ctx.notes.append(f'translator failed: {translate_msg}')
+			print(f'[{PROP}] translator failed (the tie is broken): {translate_msg}', file=sys.stderr)
 	proof = common.prove(ctx, PROP, leanchecker=ctx.thorough)
 	with ctx.timed('correspondence'):
-		streams = [stream_nodes(ctx), stream_quote(ctx), stream_hull(ctx), stream_collector(ctx)]
+		streams = [guard_stream(f, ctx) for f in (stream_nodes, stream_quote, stream_hull, stream_collector)]
 	with ctx.timed('search'):
-		searches = [*search_spans(ctx), search_collector(ctx)]
+		searches = [*guard_search(search_spans, ctx), guard_search(search_collector, ctx)]
 	return common.finish(ctx, proof, streams, searches,
 		translate_ok=translate_ok, translate_msg=translate_msg,
 		statements=STATEMENTS,
